@@ -138,6 +138,35 @@ def check_numeric_literal_test(rep, facts):
                     raise AnalysisError('is_int: regular expression flags {} not understood'.format(sorted(names)))
     if pat is None:
         raise AnalysisError('is_int decides neither with int(text, 0) nor with a regular expression constant (not understood)')
+    # decided: the language of the pattern (as it is applied) against the language of int(text, 0), as automata (intlang)
+    from .. import intlang
+    try:
+        verdict = intlang.decide(pat[0], pat[1], flags)
+    except intlang.Unsupported as e:
+        verdict = None
+        unsupported = str(e)
+    if verdict is not None:
+        if not verdict['all']:
+            rep.ok('R13.7.numeric-literals', 'the pattern {!r} ({}) accepts exactly the texts int(text, 0) accepts'.format(pat[0], pat[1]))
+            return
+        w = verdict['tokens']
+        if not w:
+            other = verdict['all']
+            rep.ok('R13.7.numeric-literals', 'the pattern {!r} ({}) accepts exactly the whitespace-free texts int(text, 0) accepts'.format(pat[0], pat[1]))
+            rep.assumptions.append('R13.7: is_int is compared with int(text, 0) on texts without whitespace and without non-ASCII decimal digits (tokens are split off at '
+                                   'whitespace by the lexer; a number spelled with non-ASCII digits is refused by the expression evaluator either way); outside that '
+                                   'domain they differ, e.g. on {}'.format(', '.join('{!r}'.format(v) for v in other.values())))
+            return
+        parts = []
+        if 'missed' in w:
+            parts.append('rejects {!r}, which int(text, 0) accepts'.format(w['missed']))
+        if 'extra' in w:
+            parts.append('accepts {!r}, which int(text, 0) rejects'.format(w['extra']))
+        rep.fail(Finding('R13.7.numeric-literals', 'is_int', pat[2],
+                         'the pattern {!r} {}: the same number spelled that way is treated differently (shortest witnesses of the difference of the two '
+                         'languages)'.format(pat[0], ' and '.join(parts)), line=pat[2].lineno), instance='numeric literal spellings')
+        return
+    # outside the regular subset the automaton construction covers: the sample comparison remains (a difference is a finding, agreement no proof)
     rx = _re.compile(pat[0], flags)
     wrong = []
     for s_ in NUMERIC_SPELLINGS:
@@ -155,7 +184,7 @@ def check_numeric_literal_test(rep, facts):
                          'the pattern {!r} {} {!r}, which int(text, 0) {}: the same number spelled that way is treated differently ({} such spellings in the sample)'.format(
                              pat[0], 'rejects' if want else 'accepts', s_, 'accepts' if want else 'rejects', len(wrong)), line=pat[2].lineno), instance='numeric literal spellings')
         return
-    raise AnalysisError('is_int uses the pattern {!r}: it agrees with int(text, 0) on the sample spellings, equivalence not established'.format(pat[0]))
+    raise AnalysisError('is_int uses the pattern {!r} ({}): it agrees with int(text, 0) on the sample spellings, equivalence not established'.format(pat[0], unsupported))
 
 
 def parents_of_node(node):
